@@ -14,7 +14,8 @@ rounded half-to-even to a microsecond, which is what CPython does).  Translated:
 * the `math.ceil(…)` formula of `_update_buffer_len`    -> `rawBufferLen …`
 * `period = max(…) if … else …`, `minimum_relevant_timestamp = …` and the two `bisect` calls of
   `_ResamplingHelper.resample`                          -> `relevancePeriod`, `minimumRelevantTimestamp`, `minIndexKey`/`maxIndexKey`
-* the filter of `_StreamingHelper._receive_samples`     -> `acceptsSample isNone isNaN`
+* the filter of `_StreamingHelper._receive_samples`     -> `acceptsSample isNone isNaN isInf`
+* whether `_window_end` is advanced before `ResamplingError` is raised -> `advanceOnError : Bool`
 
 Anything that does not have the expected shape raises (the check then treats the proofs as broken).
 """
@@ -410,6 +411,13 @@ def resample_loop(res: ast.ClassDef) -> str:
     other = [s for s in ast.walk(fn) if isinstance(s, ast.Assign) and any(ast.unparse(t) == "self._window_end" for t in s.targets)]
     if len(adv) != 1 or other or adv[0][0] < gather_idx:
         raise Unsupported("expected exactly one `self._window_end += …` after the gather")
+    # where the errors of the tick are raised: `if exceptions: raise ResamplingError(exceptions)`
+    raise_idx = [i for i, st in enumerate(body) if isinstance(st, ast.If) and
+                 any(isinstance(n, ast.Raise) and n.exc is not None and "ResamplingError" in ast.unparse(n.exc)
+                     for n in ast.walk(st))]
+    if len(raise_idx) != 1 or raise_idx[0] < gather_idx:
+        raise Unsupported("expected exactly one `if exceptions: raise ResamplingError(…)` after the gather")
+    advance_on_error = adv[0][0] < raise_idx[0]
     s = adv[0][1]
     tr = Tr({"self._config.resampling_period": ("period", "Int"), "self._window_end": ("windowEnd", "Int")})
     if not isinstance(s.op, (ast.Add, ast.Sub)):
@@ -422,7 +430,10 @@ def resample_loop(res: ast.ClassDef) -> str:
             f"def advanceWindowEnd (windowEnd period : Int) : Int :=\n  windowEnd {sym} {t}\n\n"
             "/-- `true`: after the gather `resample()` only uses a snapshot of the series taken before it;\n"
             "`false`: it reads the live `self._resamplers` again (series added/removed in flight are mis-indexed). -/\n"
-            f"def gatherOverSnapshot : Bool := {'false' if live_after else 'true'}")
+            f"def gatherOverSnapshot : Bool := {'false' if live_after else 'true'}\n\n"
+            "/-- `true`: the window end is advanced before the errors of the tick are raised (a tick that ends with a\n"
+            "`ResamplingError` still consumes its window); `false`: only error-free ticks advance it. -/\n"
+            f"def advanceOnError : Bool := {'true' if advance_on_error else 'false'}")
 
 
 HELPER_NAMES = {
@@ -634,10 +645,15 @@ def receive_filter(stream: ast.ClassDef) -> str:
     iff = loop.body[0]
     if [ast.unparse(s) for s in iff.body] != ["self._helper.add_sample(sample)"]:
         raise Unsupported("_receive_samples does not add the accepted sample")
+    finite = "((!isNaN) && (!isInf))"
     tr = Tr({"sample.value is None": ("isNone", "Bool"), "sample.value is not None": ("(!isNone)", "Bool"),
-             "sample.value.isnan()": ("isNaN", "Bool")})
-    return ("/-- The filter of `_StreamingHelper._receive_samples`. -/\n"
-            "def acceptsSample (isNone isNaN : Bool) : Bool :=\n  " + tr.cond(iff.test))
+             "sample.value.isnan()": ("isNaN", "Bool"),
+             "sample.value.isinf()": ("isInf", "Bool"),
+             "math.isnan(sample.value.base_value)": ("isNaN", "Bool"),
+             "math.isinf(sample.value.base_value)": ("isInf", "Bool"),
+             "math.isfinite(sample.value.base_value)": (finite, "Bool")})
+    return ("/-- The filter of `_StreamingHelper._receive_samples` (`isInf`: the value is +inf or -inf). -/\n"
+            "def acceptsSample (isNone isNaN isInf : Bool) : Bool :=\n  " + tr.cond(iff.test))
 
 
 def generate(repo: pathlib.Path) -> str:
@@ -649,4 +665,4 @@ def generate(repo: pathlib.Path) -> str:
     add_sample_shape(hel)
     parts = [constants(tree), calc_window_end(res), timer_hack(res), resample_loop(res), helper_parts(hel),
              receive_filter(stream)]
-    return "namespace Extracted.Resampling\n\n" + PRELUDE + "\n" + "\n\n".join(parts) + "\n\nend Extracted.Resampling\n"
+    return "set_option linter.unusedVariables false\n\nnamespace Extracted.Resampling\n\n" + PRELUDE + "\n" + "\n\n".join(parts) + "\n\nend Extracted.Resampling\n"
